@@ -13,7 +13,7 @@ import (
 
 var specC03WellFormed = Register(&Spec[WellFormed]{
 	Prop: "C03", Name: "wellformed",
-	Rule: "version strings rendered from the Policy grammar: optional decimal epoch (leading zeros, up to MaxInt64), upstream = digit then [A-Za-z0-9.+~]* with ':' only when an epoch is written and '-' only when a revision is written, optional revision [A-Za-z0-9.+~]+, optional surrounding blanks/tabs/newlines. Oracle: Parse, UnmarshalControl and UnmarshalText (fresh receivers) succeed and return exactly the renderer's parts. Non-trivial: has an epoch and/or a revision and/or ':' or '-' inside upstream; distinct by text.",
+	Rule: "version strings rendered from the Policy grammar: optional decimal epoch (leading zeros, up to MaxInt64), upstream = digit then [A-Za-z0-9.+~]* with ':' only when an epoch is written and '-' only when a revision is written, optional revision [A-Za-z0-9.+~]+, optional surrounding blanks/tabs/newlines. Oracle: Parse, UnmarshalControl and UnmarshalText succeed and return exactly the renderer's parts - into fresh receivers and into receivers that held another version before (UnmarshalControl, UnmarshalText, json.Unmarshal). Non-trivial: has an epoch and/or a revision and/or ':' or '-' inside upstream; distinct by text.",
 	Check: func(w WellFormed, r *Recorder) error {
 		cl := []string{}
 		if w.HasEpoch {
@@ -50,6 +50,19 @@ var specC03WellFormed = Register(&Spec[WellFormed]{
 		var viaText version.Version
 		if err := viaText.UnmarshalText([]byte(w.Text)); err != nil || viaText != want {
 			return errf("UnmarshalText(%q) = %+v, %v; want %+v", w.Text, viaText, err, want)
+		}
+		// a receiver that held another version before (one variable decoded into repeatedly)
+		used := version.Version{Epoch: 7, Version: "9.9-9", Revision: "old1"}
+		if err := used.UnmarshalControl(w.Text); err != nil || used != want {
+			return errf("UnmarshalControl(%q) into a Version that held 7:9.9-9-old1 gives %+v, %v; want %+v", w.Text, used, err, want)
+		}
+		used = version.Version{Epoch: 7, Version: "9.9-9", Revision: "old1"}
+		if err := used.UnmarshalText([]byte(w.Text)); err != nil || used != want {
+			return errf("UnmarshalText(%q) into a Version that held 7:9.9-9-old1 gives %+v, %v; want %+v", w.Text, used, err, want)
+		}
+		used = version.Version{Epoch: 7, Version: "9.9-9", Revision: "old1"}
+		if err := json.Unmarshal([]byte(strconvQuote(strings.TrimSpace(w.Text))), &used); err != nil || used != want {
+			return errf("json.Unmarshal(%q) into a Version that held 7:9.9-9-old1 gives %+v, %v; want %+v", w.Text, used, err, want)
 		}
 		return nil
 	},
@@ -323,4 +336,9 @@ func FuzzC03_RoundTrip(f *testing.F) {
 			t.Fatalf("C03/roundtrip violated on %q: %v", s, err)
 		}
 	})
+}
+
+func strconvQuote(s string) string {
+	b, _ := json.Marshal(s)
+	return string(b)
 }
